@@ -76,30 +76,36 @@ def b58index (c : Char) : Option Nat :=
     | x :: xs => if x == c then some i else go xs (i + 1)
   go b58alphabet.toList 0
 
+/-- big-endian bytes of a number, no leading zero byte (`[]` for 0) -/
 def natToBytesBE (n : Nat) : Bytes :=
-  let rec go (fuel : Nat) (n : Nat) (acc : Bytes) : Bytes :=
-    match fuel with
-    | 0 => acc
-    | f + 1 => if n == 0 then acc else go f (n / 256) (UInt8.ofNat (n % 256) :: acc)
-  go (Nat.log2 n / 8 + 2) n []
+  if h : n = 0 then [] else natToBytesBE (n / 256) ++ [UInt8.ofNat (n % 256)]
+termination_by n
+decreasing_by exact Nat.div_lt_self (Nat.pos_of_ne_zero h) (by decide)
 
-/-- base58 decode: leading '1's are leading zero bytes. -/
-def base58Decode (s : String) : Option Bytes := do
-  let cs := s.toList
-  let n ← cs.foldlM (fun acc c => do some (acc * 58 + (← b58index c))) 0
-  let zeros := (cs.takeWhile (· == '1')).length
-  some (List.replicate zeros (0 : UInt8) ++ natToBytesBE n)
+/-- value of a big-endian base-58 digit list -/
+def digitsVal (ds : List Nat) : Nat := ds.foldl (fun acc d => acc * 58 + d) 0
+
+/-- base58 decode of a character list: every character must be in the alphabet; leading '1's (digit 0)
+are leading zero bytes, the rest is the big-endian number. -/
+def base58DecodeC (cs : List Char) : Option Bytes := do
+  let ds ← cs.mapM b58index
+  let zeros := (ds.takeWhile (· == 0)).length
+  some (List.replicate zeros (0 : UInt8) ++ natToBytesBE (digitsVal ds))
+
+def base58Decode (s : String) : Option Bytes := base58DecodeC s.toList
 
 def checksumLength : Nat := 4
 
 /-- wallet.Helper.AddressToPubKey: version byte | key | 4-byte double-sha256 checksum. -/
-def addressToPubKey (addr : String) : Option Bytes := do
-  let raw ← base58Decode addr
+def addressToPubKeyC (cs : List Char) : Option Bytes := do
+  let raw ← base58DecodeC cs
   if raw.length < checksumLength + 1 then none else
   let actual := raw.drop (raw.length - checksumLength)
   let body := raw.take (raw.length - checksumLength)     -- version ++ key
   if body.head? != some (0 : UInt8) then none else       -- only wallet version 0 is supported
   let target := (sha256 (sha256 body)).take checksumLength
   if actual == target then some (body.drop 1) else none
+
+def addressToPubKey (addr : String) : Option Bytes := addressToPubKeyC addr.toList
 
 end CModel.Crypto
